@@ -270,3 +270,47 @@ func TestD12UnboundParameterInExpression(t *testing.T) {
 		}()
 	}
 }
+
+// D13 (C18/C10): an expression operator message without its kind must be an error, not a nil dereference.
+func TestD13OperatorWithoutKind(t *testing.T) {
+	// AuthorizerPolicies{version:3, policies:[{queries:[{head:{name:27}, expressions:[{ops:[{Binary:{}}]}]}], kind:Allow}]}
+	op := []byte{0x1a, 0x00}                                  // Op.Binary = empty message (kind missing)
+	expr := append([]byte{0x0a, byte(len(op))}, op...)        // ExpressionV2.ops
+	head := []byte{0x08, 27}                                  // PredicateV2.name = 27
+	rule := append([]byte{0x0a, byte(len(head))}, head...)    // RuleV2.head
+	rule = append(rule, append([]byte{0x1a, byte(len(expr))}, expr...)...) // RuleV2.expressions
+	pol := append([]byte{0x0a, byte(len(rule))}, rule...)     // Policy.queries
+	pol = append(pol, 0x10, 0x00)                             // Policy.kind = Allow
+	msg := append([]byte{0x10, 0x03}, append([]byte{0x32, byte(len(pol))}, pol...)...)
+	_, priv := keys(1)
+	tok, _ := biscuit.NewBuilder(priv, biscuit.WithRNG(&detRNG{})).Build()
+	a, _ := biscuit.NewVerifier(tok)
+	defer func() {
+		if r := recover(); r != nil {
+			t.Fatalf("LoadPolicies panicked: %v", r)
+		}
+	}()
+	if err := a.LoadPolicies(msg); err == nil {
+		t.Fatal("a binary operator without kind was accepted")
+	}
+}
+
+// D14 (C18): once evaluation has been attempted the authorizer holds the token's facts;
+// SerializePolicies must be refused even when that evaluation failed.
+func TestD14SnapshotRefusedAfterFailedEvaluation(t *testing.T) {
+	_, priv := keys(1)
+	b := biscuit.NewBuilder(priv, biscuit.WithRNG(&detRNG{}))
+	b.AddAuthorityFact(fact("n", biscuit.String("secret-of-the-token")))
+	tok, _ := b.Build()
+	a, _ := biscuit.NewVerifier(tok, longOpts)
+	// big($x) <- n($x), $x > 1 : a type error on the token's string fact makes evaluation fail
+	a.AddRule(biscuit.Rule{Head: biscuit.Predicate{Name: "big", IDs: []biscuit.Term{biscuit.Variable("x")}}, Body: []biscuit.Predicate{{Name: "n", IDs: []biscuit.Term{biscuit.Variable("x")}}},
+		Expressions: []biscuit.Expression{{biscuit.Value{Term: biscuit.Variable("x")}, biscuit.Value{Term: biscuit.Integer(1)}, biscuit.BinaryGreaterThan}}})
+	a.AddPolicy(biscuit.DefaultAllowPolicy)
+	if err := a.Authorize(); err == nil {
+		t.Fatal("expected an evaluation error")
+	}
+	if snap, err := a.SerializePolicies(); err == nil {
+		t.Fatalf("snapshot allowed after a (failed) evaluation; it contains the token's fact: %v", bytes.Contains(snap, []byte("secret-of-the-token")))
+	}
+}
